@@ -552,6 +552,10 @@ def locks_replay_lines(sc, r, t="t1"):
                     # managed TTL is small; locks_compare checks it against the wall-clock windows of the calls
                     "1" if (sc.get("managed_ttl") and sent and s["bk"].get("agg")) else "0"]
             rpc_keys = sorted(sent)
+        elif (op == "audit" and not sc.get("managed_ttl") and not str(sc.get("black_kind") or "").startswith("release_")
+              and not any(str(f.get("kind", "")).startswith("release:") for f in sc.get("faults") or [])):
+            # background work is quiet: the model runs its pending tasks; its lock set is compared with the store's (locks_compare)
+            body = ["quiet"]
         elif op in ("agg_start", "agg_retry", "agg_cancel", "agg_done"):
             body = [op.replace("_", "")]
         elif op == "rollback":
@@ -572,7 +576,8 @@ def locks_replay_lines(sc, r, t="t1"):
         lines.append("\t".join(["E", str(i)] + body))
         exp.append({"i": i, "op": op, "bk": s["bk"], "rpc_keys": rpc_keys, "err": s.get("err"), "line": lines[-1],
                     "t0": s.get("t0_ms"), "t1": s.get("t1_ms"),
-                    "early": (s.get("err") == "err:exists" and not rpc_keys) if rpc_keys is not None else None})
+                    "early": (s.get("err") == "err:exists" and not rpc_keys) if rpc_keys is not None else None,
+                    "audit_locks": sorted(k for k, v in (s.get("locks") or {}).items() if v == S) if body == ["quiet"] else None})
         if op == "insert" and info.get("pessimistic") and s.get("err"):
             lines.append("\t".join(["E", f"{i}b", "unmark", "%x" % kidx[sc["program"][i]["k"]]]))
     if str(info.get("result", "")).startswith("rolledback(final)"):
@@ -605,6 +610,11 @@ def locks_compare(sc, r, out_lines, exp, t="t1"):
         bk = x["bk"]
         x["X"] = len(p) > 12 and p[12] == "X"
         x["mstore"] = dec(p[11]) if len(p) > 11 else []
+        # wf_run and the extra contract of C06_tracked_keys_hold_locks (fresh for-update ts, faithful store, retry after a
+        # failed call inside an attempt) held for all events up to this step (evaluated by the model driver: Contract.v)
+        x["inside"] = (p[16] == "H") if len(p) > 16 else None
+        if x.get("audit_locks") is not None and x["mstore"] != x["audit_locks"]:
+            bad.append(f"step {x['i']} (audit, background quiet): locks of the transaction in the store: model={x['mstore']} store={x['audit_locks']}")
         if x.get("early") is not None and len(p) > 15 and p[15] in ("Y", "N") and (p[15] == "Y") != bool(x["early"]):
             bad.append(f"step {x['i']} ({x['op']}): key-exists error before any request: model predicts {p[15] == 'Y'}, client {bool(x['early'])} (err {x['err']})")
         # keep-alive (ttlManager): running or not after every call; the bound key is kept for the heart-beat check
